@@ -29,7 +29,8 @@ def scenario_sets(ctx):
     return out
 
 
-def run(ctx, invs=INVS, rel=P.rel_c07, witnesses=("W_Ann", "W_Pruned"), finish=True):
+def run(ctx, invs=INVS, rel=P.rel_c07, witnesses=("W_Ann", "W_Pruned"), finish=True,
+        node_rel=lambda a: "ev.ParentReady" in a):
     ctx.build_harness()
     ctx.assumptions += ["certificate universes are consistent (producible with <20% Byzantine stake): "
                         "one notarized block per slot, no skip certificate next to a finalization"]
@@ -47,5 +48,9 @@ def run(ctx, invs=INVS, rel=P.rel_c07, witnesses=("W_Ann", "W_Pruned"), finish=T
     P.run_sim(ctx, "chain_sim9", [2, 2, 1], 0, 13, scns, invs, rel, num, depth)
     if not finish:
         return 0
+    # code -> spec on real executions: every pool call / Votor step of every correct node of simulated networks
+    # (equivocating and noisy Byzantine validators, loss, crashes, standstill recovery) is a transition of the spec
+    from .. import nodetrace as NT
+    NT.component_sims(ctx, node_rel)
     return ctx.finish(rule="every transition of the certificate-delivery models (all arrival orders of a consistent "
                            "certificate universe + block registrations + waiter registration) is one case")
